@@ -805,9 +805,20 @@ fn arb_vlayer() -> impl Strategy<Value = VLayer> {
 // ---------------------------------------------------------------------------------------------
 // stream- and format-level wrappers
 
+/// scripted answer of the innermost stream / format for the i-th entry: 0 Ok, 1 Validation, 2 Io
+fn scripted(results: &[u8], i: usize) -> Result<(), IoStreamError> {
+    match results.get(i).copied().unwrap_or(0) % 3 {
+        0 => Ok(()),
+        1 => Err(IoStreamError::Validation(metrique_writer_core::ValidationError::invalid("scripted"))),
+        _ => Err(IoStreamError::Io(std::io::Error::other("scripted"))),
+    }
+}
+
 #[derive(Default)]
 struct RecStream {
     log: Arc<Mutex<Vec<(Vec<Rec>, Sg)>>>,
+    results: Vec<u8>,
+    n: usize,
 }
 impl EntryIoStream for RecStream {
     fn next(&mut self, entry: &impl Entry) -> Result<(), IoStreamError> {
@@ -815,7 +826,8 @@ impl EntryIoStream for RecStream {
             .lock()
             .unwrap()
             .push((record(entry).recs, sample_group_of(entry)));
-        Ok(())
+        self.n += 1;
+        scripted(&self.results, self.n - 1)
     }
     fn flush(&mut self) -> std::io::Result<()> {
         Ok(())
@@ -824,6 +836,8 @@ impl EntryIoStream for RecStream {
 #[derive(Default)]
 struct RecFmt {
     log: Arc<Mutex<Vec<(Vec<Rec>, Sg)>>>,
+    results: Vec<u8>,
+    n: usize,
 }
 impl Format for RecFmt {
     fn format(&mut self, entry: &impl Entry, _o: &mut impl std::io::Write) -> Result<(), IoStreamError> {
@@ -831,7 +845,8 @@ impl Format for RecFmt {
             .lock()
             .unwrap()
             .push((record(entry).recs, sample_group_of(entry)));
-        Ok(())
+        self.n += 1;
+        scripted(&self.results, self.n - 1)
     }
 }
 
@@ -848,6 +863,10 @@ pub struct StreamCase {
     /// applied innermost first (the first layer wraps the recording stream directly)
     pub layers: Vec<SLayer>,
     pub format_level: bool,
+    /// what the innermost stream / format answers per entry (0 Ok, 1 Validation, 2 Io): an error
+    /// for one entry must be passed through and must not change what later entries look like
+    #[serde(default)]
+    pub results: Vec<u8>,
 }
 
 fn smallvec_dims(d: &[(String, String)]) -> smallvec::SmallVec<[(Cow<'static, str>, Cow<'static, str>); 2]> {
@@ -861,18 +880,30 @@ pub fn check_stream(case: &StreamCase) -> CaseResult {
     macro_rules! run {
         ($s:expr) => {{
             let mut s = $s;
-            for e in &case.entries {
+            for (i, e) in case.entries.iter().enumerate() {
                 let p = e.prepare();
-                no_panic("stream-wrapper-next", || s.next(&p))?.ok();
+                let r = no_panic("stream-wrapper-next", || s.next(&p))?;
+                let want = scripted(&case.results, i);
+                vensure!(
+                    matches!((&r, &want), (Ok(()), Ok(())) | (Err(IoStreamError::Validation(_)), Err(IoStreamError::Validation(_))) | (Err(IoStreamError::Io(_)), Err(IoStreamError::Io(_)))),
+                    "stream-wrapper:result-not-passed-through",
+                    "entry {i}: the inner stream answered {want:?}, the wrapper returned {r:?}"
+                );
             }
         }};
     }
     macro_rules! run_fmt {
         ($f:expr) => {{
             let mut f = $f;
-            for e in &case.entries {
+            for (i, e) in case.entries.iter().enumerate() {
                 let p = e.prepare();
-                no_panic("format-wrapper-format", || f.format(&p, &mut std::io::sink()))?.ok();
+                let r = no_panic("format-wrapper-format", || f.format(&p, &mut std::io::sink()))?;
+                let want = scripted(&case.results, i);
+                vensure!(
+                    matches!((&r, &want), (Ok(()), Ok(())) | (Err(IoStreamError::Validation(_)), Err(IoStreamError::Validation(_))) | (Err(IoStreamError::Io(_)), Err(IoStreamError::Io(_)))),
+                    "stream-wrapper:result-not-passed-through",
+                    "entry {i}: the inner format answered {want:?}, the wrapper returned {r:?}"
+                );
             }
         }};
     }
@@ -912,8 +943,8 @@ pub fn check_stream(case: &StreamCase) -> CaseResult {
             }
         };
     }
-    let rec_stream = || RecStream { log: log.clone() };
-    let rec_fmt = || RecFmt { log: log.clone() };
+    let rec_stream = || RecStream { log: log.clone(), results: case.results.clone(), n: 0 };
+    let rec_fmt = || RecFmt { log: log.clone(), results: case.results.clone(), n: 0 };
     match (case.format_level, layers.as_slice()) {
         (_, []) => run!(rec_stream()),
         (false, [SLayer::Force(ForceKind::HighRes)]) => {
@@ -1033,6 +1064,9 @@ pub fn check_stream(case: &StreamCase) -> CaseResult {
     if case.format_level {
         classes.push("format-level");
     }
+    if case.entries.len() >= 2 && case.results.iter().take(case.entries.len() - 1).any(|r| r % 3 != 0) {
+        classes.push("entry-after-one-the-inner-stream-refused");
+    }
     classes.sort();
     classes.dedup();
     Ok(classes)
@@ -1090,21 +1124,23 @@ pub fn run(ctx: &mut Ctx) {
     ctx.explore(
         SubCfg::new(
             "c15-stream-wrappers",
-            "1-4 arbitrary entries through 0-2 stream-level (EntryIoStreamExt::merge_globals / merge_global_dimensions, ForceFlag<stream>) or format-level (FormatExt::merge_globals / merge_global_dimensions) wrappers around a recording stream/format that also records sample_group(). Oracle: the inner stream sees the documented transform of each entry and the same sample group (what a congressional sampler behind the wrapper would group by). Non-trivial = entry with a non-empty sample group under >=1 layer",
+            "1-4 arbitrary entries through 0-2 stream-level (EntryIoStreamExt::merge_globals / merge_global_dimensions, ForceFlag<stream>) or format-level (FormatExt::merge_globals / merge_global_dimensions) wrappers around a recording stream/format that also records sample_group() and answers each entry Ok / Validation / Io by script. Oracle: the inner stream sees the documented transform of EVERY entry - also of those that follow an entry the inner stream refused - and the same sample group; the wrapper returns the inner answer (what a congressional sampler behind the wrapper would group by). Non-trivial = entry with a non-empty sample group under >=1 layer",
             if q { 30_000 } else { 800_000 },
         )
         .threads(threads)
-        .mandatory(&["s-merge-globals", "s-merge-global-dimensions", "s-force-flag", "format-level"]),
+        .mandatory(&["s-merge-globals", "s-merge-global-dimensions", "s-force-flag", "format-level", "entry-after-one-the-inner-stream-refused"]),
         || {
             (
-                prop::collection::vec(arb_entry_c15(), 1..4),
+                prop::collection::vec(arb_entry_c15(), 1..5),
                 prop::collection::vec(arb_slayer(), 0..3),
                 any::<bool>(),
+                prop::collection::vec(prop_oneof![3 => Just(0u8), 1 => Just(1u8), 1 => Just(2u8)], 0..5),
             )
-                .prop_map(|(entries, layers, format_level)| StreamCase {
+                .prop_map(|(entries, layers, format_level, results)| StreamCase {
                     entries,
                     layers,
                     format_level,
+                    results,
                 })
         },
         check_stream,
